@@ -52,6 +52,19 @@ def cases(rng, tier):
             ops += [("SN", 0, 0) for _ in range(cap)] + [("OP", "fw_begin"), ("OP", "fw_begin")]
         ops += [("RELEASE", "fw_begin"), ("SETTLE",), ("O",)]
         out.append(shardprop.mk_case("passive-backlog", cfg, 1, 1, ops))
+    # (a') the same backlog, then the process is killed and restarted: recovery replays several live log files and
+    #      must apply them in log order (REPLAY after the restart is in append order)
+    for i in range(2 if tier == "quick" else 40):
+        cfg = dict(rng.choice(shardprop.CFGS)); cfg["wildcard_replay"] = False
+        cap = cfg["fill_factor"] * cfg["event_per_zone"]
+        nrot = rng.range(3, 6)
+        ops = [("S", 0, 0) for _ in range(cap)] if i % 2 == 0 else []
+        ops += [("PARK", "fw_begin")]
+        for r_ in range(nrot):
+            ops += [("SN", 0, rng.below(2)) for _ in range(cap)]
+        ops += [("SN", 0, rng.below(2)) for _ in range(rng.range(0, cap - 1))] if cap > 1 else []
+        ops += [("KR",), ("SETTLE",), ("O",)]
+        out.append(shardprop.mk_case("backlog-kill-restart", cfg, 1, 2, ops))
     # (b) large memtables (more than 20 events per flush) with two event types: the flusher's regrouping by
     #     type must keep append order inside a context
     for i in range(2 if tier == "quick" else 40):
